@@ -36,6 +36,14 @@
 //!   requests are processed. Same oracle (the blocking and the async TCP server get the same pipeline as references);
 //!   what the class adds is the arrival-order clause under back-pressure. Server names `ws-{inline,offreader}-outq<N>-{current,multi}-thread`.
 //!
+//! * handlers that re-enter the state they are served from (c03_re.rs, c03_srv.rs `reent_logic`): registry functions that
+//!   read and write the registry they are registered in (and the one mounted next to it) while they run, a context-aware
+//!   handler that calls into the server's peer registry, between ordinary requests and next to connections that read and
+//!   write the same registry, on one server per dispatch path (two more on current-thread runtimes). Same oracle, plus the
+//!   bounded-progress verdict `C03:no-response-within-progress-window:*` for a request that has neither a response nor an end of
+//!   stream after both bounded waits.
+//! * c03_rt.rs, second class: PACED whole frames on the read-timeout servers (see there), `C03:<transport>:read-timeout:paced:*`.
+//!
 //! `c01_net` (C01 "net" stage) lives in c03_c01net.rs.
 
 #[path = "c03_cli.rs"]
@@ -50,6 +58,8 @@ mod srv;
 mod rt;
 #[path = "c03_bp.rs"]
 mod bp;
+#[path = "c03_re.rs"]
+mod re;
 
 use crate::common::*;
 use crate::oracle::Frame;
@@ -82,6 +92,9 @@ struct SeqCtx<'a> {
     seen: &'a std::cell::RefCell<std::collections::HashSet<String>>,
     /// pipeline of the failed-serialization class: its role (None: every other class)
     ser: Option<gen_::SerRole>,
+    /// class "re-entrant handlers": a request that has neither a response nor an end of stream after both bounded waits
+    /// is judged (bounded progress) instead of being left inconclusive
+    progress: bool,
 }
 
 impl SeqCtx<'_> {
@@ -114,14 +127,24 @@ fn check_server(rep: &mut Report, cx: &SeqCtx, srv: &Srv, out: &ConnOut) -> Vec<
     rep.count(&format!("frames_received.{name}"), out.frames.len() as u64);
     rep.count("response_bytes_received", out.bytes as u64);
     let ended = out.ended();
+    // Bounded progress for a connection that never ends (class "re-entrant handlers" only): the peer wrote every request
+    // completely, kept the connection open for WAIT_T without getting the expected responses, closed, waited EOS_T
+    // again, and has neither the responses nor the end of the stream, on a machine that did not stall. The requests
+    // without a response are judged below; a harness-side doubt keeps the verdict inconclusive as everywhere else.
+    let n_expected = reqs.iter().filter(|r| r.notify != 1).count();
+    let hang = cx.progress && !ended && out.end == End::Timeout && out.wrote_all && out.waited_out && !cx.stalled && out.frames.len() < n_expected;
     match &out.end {
         End::Eos => rep.count("end_of_stream_observed", 1),
         End::Unclean(_) => rep.count("end_of_stream_by_transport_error", 1),
         _ => {
             rep.count("end_of_stream_not_observed", 1);
-            rep.inconclusive(format!("{name}: no end of stream within {:?} after closing (sequence {})", cli::EOS_T, cx.seq));
+            if !hang {
+                let why = if cx.progress { format!(" [peer wrote everything: {}, waited for responses in vain: {}, {} of {n_expected} responses, machine stalled: {}]", out.wrote_all, out.waited_out, out.frames.len(), cx.stalled) } else { String::new() };
+                rep.inconclusive(format!("{name}: no end of stream within {:?} after closing (sequence {}){why}", cli::EOS_T, cx.seq));
+            }
         }
     }
+    let mut first_hung: Option<usize> = None;
     // Bounded progress: the peer wrote every request completely and kept the connection open, yet the
     // expected responses only came out once it half-closed / sent Close. A client that waits for a response
     // before sending more would hang forever. Inline paths only (off-reader completion is not ordered); a
@@ -179,7 +202,30 @@ fn check_server(rep: &mut Report, cx: &SeqCtx, srv: &Srv, out: &ConnOut) -> Vec<
         } else {
             match got[i].len() {
                 0 => {
-                    if !ended {
+                    if hang {
+                        let (entered, _) = (srv::ev_peek(srv.sid, EV_H, r.token), 0);
+                        // the class of a request to a re-entrant kind / the registry they share; every other request counts as a bystander
+                        let class = match r.target {
+                            Some(t) if e.dispatched && (srv::REENT_FN_T.contains(&t) || matches!(t, T::RrConst | T::RrW)) => label.clone(),
+                            _ => "other-request".to_string(),
+                        };
+                        let (sig, extra) = match first_hung {
+                            None => (format!("C03:no-response-within-progress-window:{name}:{class}"), format!("its handler body was entered {entered} time(s)")),
+                            Some(j) => (format!("C03:no-response-within-progress-window:{name}:pipelined-behind-unanswered-request"), format!("pipelined behind request #{j} ({}) which was never answered either", reqs[j].expect.label)),
+                        };
+                        first_hung.get_or_insert(i);
+                        rep.count("requests_never_answered_within_progress_window", 1);
+                        cx.viol(
+                            rep,
+                            sig,
+                            format!(
+                                "{name}, sequence {}, request #{i} (notify={}, {label}, variant {}): every request was written, the connection stayed open for {:?}, then the peer closed and waited {:?} more: no response and no end of stream ({} of {n_expected} responses received); {extra}",
+                                cx.seq, r.notify, r.variant, cli::WAIT_T, cli::EOS_T, out.frames.len()
+                            ),
+                            &name,
+                            Some(i),
+                        );
+                    } else if !ended {
                         // already inconclusive above
                     } else if inline || (!out.waited_out || !cx.stalled) {
                         // a request whose error text quotes long non-ASCII caller text, or one pipelined behind such a
@@ -220,7 +266,10 @@ fn check_server(rep: &mut Report, cx: &SeqCtx, srv: &Srv, out: &ConnOut) -> Vec<
         let want_h = e.invoked as u32;
         if hcnt != want_h {
             let kind = if hcnt > want_h { "extra" } else { "missing" };
-            if hcnt < want_h && (!ended || (!inline && out.waited_out && cx.stalled)) {
+            if hcnt < want_h && hang {
+                // the connection never got this far (or the notify hangs itself): reported through the unanswered requests
+                rep.count("handler_runs_not_reached_on_a_connection_that_never_ended", 1);
+            } else if hcnt < want_h && (!ended || (!inline && out.waited_out && cx.stalled)) {
                 rep.inconclusive(format!("{name}: handler invocation not observed, stream not ended or machine stalled (sequence {})", cx.seq));
             } else {
                 let what = if !e.dispatched && hcnt > 0 { "rejected-request-handler-invoked".to_string() } else { format!("handler-invocations-{kind}") };
@@ -246,7 +295,8 @@ fn check_server(rep: &mut Report, cx: &SeqCtx, srv: &Srv, out: &ConnOut) -> Vec<
             let (mcnt, _) = srv::ev_take(srv.sid, EV_MW, r.id);
             let want_m = e.dispatched as u32;
             if mcnt != want_m {
-                if mcnt < want_m && (!ended || (!inline && out.waited_out && cx.stalled)) {
+                if mcnt < want_m && hang {
+                } else if mcnt < want_m && (!ended || (!inline && out.waited_out && cx.stalled)) {
                     rep.inconclusive(format!("{name}: middleware invocation not observed (sequence {})", cx.seq));
                 } else {
                     cx.viol(rep, 
@@ -535,7 +585,7 @@ async fn run_sequence(servers: Arc<Vec<Srv>>, reqs: Arc<Vec<Req>>, mut rng: Rng)
     for h in hs {
         outs.push(match h.await {
             Ok(o) => o,
-            Err(e) => ConnOut { frames: vec![], end: End::Harness(format!("client task failed: {e}")), garbage: None, waited_out: false, bytes: 0 },
+            Err(e) => ConnOut { frames: vec![], end: End::Harness(format!("client task failed: {e}")), garbage: None, waited_out: false, bytes: 0, wrote_all: false },
         });
     }
     outs
@@ -559,7 +609,11 @@ pub fn run(args: &Args) -> Report {
          6 kinds that return the record, notify 0/1) pipelined between ordinary requests and next to bystander connections on the \
          same servers, every other body compared with the third-party encoding of the handler's result; plus pipelines against \
          WebSocket servers with outbound queues of 1/2/3/8 messages on current-thread and multi-thread runtimes from peers that \
-         write the whole pipeline before reading / read slowly (arrival order of reader-produced answers under back-pressure); distinct = (class label, target, body format, variant, notify, landmark/width/offset) per request plus the \
+         write the whole pipeline before reading / read slowly (arrival order of reader-produced answers under back-pressure); plus, on blocking and async TCP servers with 60/100/150/300 ms \
+         read timeouts, whole frames paced at 10..70 % of the timeout for several timeouts with long stretches of notifies / rejected \
+         notifies between requests; plus registry functions that read and write their own registry (and the one next to it) and a \
+         handler that calls into the server's peer registry while running, between ordinary requests and next to connections using \
+         the same registry, on every dispatch path (bounded-progress verdict for requests that are never answered); distinct = (class label, target, body format, variant, notify, landmark/width/offset) per request plus the \
          class-label sequence of each pipeline, and (server, outer kind, tail kind, cut class, pause class, cut offsets) per \
          read-timeout scenario",
     );
@@ -611,7 +665,7 @@ async fn nonascii_phase(rep: &mut Report, args: &Args, servers: &Arc<Vec<Srv>>, 
     let probe_seq = 900_000u64;
     let probe = Arc::new(gen_::reflect_probe_seq(probe_seq, &mut rng, gst));
     let outs = run_sequence(servers.clone(), probe.clone(), rng.fork(1)).await;
-    let cx = SeqCtx { seed: args.seed, seq: probe_seq, reqs: &probe, stalled: hb.max_gap_ms() > 1000, seen, ser: None };
+    let cx = SeqCtx { seed: args.seed, seq: probe_seq, reqs: &probe, stalled: hb.max_gap_ms() > 1000, seen, ser: None, progress: false };
     let singles = judge_sequence(rep, &cx, servers, &outs, false);
     let mut overhead: Vec<(&'static str, Vec<Option<usize>>)> = gen_::REFLECT_KINDS.iter().map(|k| (*k, vec![None; gen_::reflect_subs(k)])).collect();
     for (i, r) in probe.iter().enumerate() {
@@ -664,7 +718,7 @@ async fn nonascii_phase(rep: &mut Report, args: &Args, servers: &Arc<Vec<Srv>>, 
             }
         };
         executed += 1;
-        let cx = SeqCtx { seed: args.seed, seq, reqs: &reqs, stalled: hb.max_gap_ms() > 1000, seen, ser: None };
+        let cx = SeqCtx { seed: args.seed, seq, reqs: &reqs, stalled: hb.max_gap_ms() > 1000, seen, ser: None, progress: false };
         judge_sequence(rep, &cx, servers, &outs, executed == 1);
     }
     rep.set("nonascii.pipelines_executed", json!(executed));
@@ -709,7 +763,7 @@ async fn ser_phase(rep: &mut Report, args: &Args, servers: &Arc<Vec<Srv>>, hb: &
             rep.count(if role == gen_::SerRole::Failing { "ser.pipelines_with_failing_results" } else { "ser.bystander_pipelines" }, 1);
             rep.count("ser.requests_with_unserializable_result_sent_per_path", n_fail);
             rep.count("ser.unserializable_result_notifies_per_path", reqs.iter().filter(|r| r.notify == 1 && r.expect.label.starts_with("result-unserializable")).count() as u64);
-            let cx = SeqCtx { seed: args.seed, seq, reqs: &reqs, stalled: hb.max_gap_ms() > 1000, seen, ser: Some(role) };
+            let cx = SeqCtx { seed: args.seed, seq, reqs: &reqs, stalled: hb.max_gap_ms() > 1000, seen, ser: Some(role), progress: false };
             judge_sequence(rep, &cx, servers, &outs, executed == 1);
         }
     }
@@ -762,7 +816,7 @@ async fn bp_phase(rep: &mut Report, args: &Args, group: &Arc<Vec<Srv>>, hb: &Hea
                 for h in hs {
                     outs.push(match h.await {
                         Ok(o) => o,
-                        Err(e) => (ConnOut { frames: vec![], end: End::Harness(format!("client task failed: {e}")), garbage: None, waited_out: false, bytes: 0 }, None),
+                        Err(e) => (ConnOut { frames: vec![], end: End::Harness(format!("client task failed: {e}")), garbage: None, waited_out: false, bytes: 0, wrote_all: false }, None),
                     });
                 }
                 outs
@@ -807,7 +861,7 @@ async fn bp_phase(rep: &mut Report, args: &Args, group: &Arc<Vec<Srv>>, hb: &Hea
         }
         let before = rep.get_count("inline_order_pairs_checked");
         let couts: Vec<ConnOut> = outs.into_iter().map(|(o, _)| o).collect();
-        let cx = SeqCtx { seed: args.seed, seq, reqs: &reqs, stalled: hb.max_gap_ms() > 1000, seen, ser: None };
+        let cx = SeqCtx { seed: args.seed, seq, reqs: &reqs, stalled: hb.max_gap_ms() > 1000, seen, ser: None, progress: false };
         judge_sequence(rep, &cx, group, &couts, executed == 1);
         let after = rep.get_count("inline_order_pairs_checked");
         rep.count("bp.inline_order_pairs_checked", after - before);
@@ -818,6 +872,75 @@ async fn bp_phase(rep: &mut Report, args: &Args, group: &Arc<Vec<Srv>>, hb: &Hea
     }
     if executed == 0 || rep.get_count("bp.connections.current-thread") == 0 || rep.get_count("bp.inline_order_pairs_checked") == 0 {
         rep.inconclusive("back-pressure class: no pipeline judged on a current-thread WebSocket server with a short outbound queue");
+    }
+}
+
+/// Workload class "handlers that re-enter the state they are served from" (c03_re.rs): pipelines that call registry
+/// functions which read and write their own registry / the other registry, and a handler that calls into the server's
+/// peer registry, between ordinary requests, next to bystander connections (plain reads / writes of the same registry) on
+/// the same servers; one server per dispatch path, two of them on current-thread runtimes.
+async fn reent_phase(rep: &mut Report, args: &Args, group: &Arc<Vec<Srv>>, hb: &Heartbeat, seen: &std::cell::RefCell<std::collections::HashSet<String>>, gst: &mut GenStats) {
+    let mut rng = Rng::new(args.seed ^ 0xC03_0EE7);
+    let n = args.budget(48, 480) as usize;
+    let t0 = rep.elapsed();
+    let pipelines = gen_::reent_pipelines(980_000, &mut rng, gst, n);
+    rep.set("reent.pipelines_planned", json!(pipelines.len()));
+    let mut executed = 0u64;
+    // waves of pipelines that are served at the same time (bystanders first, so that they are being served when the
+    // re-entrant calls happen)
+    let mut it = pipelines.into_iter().peekable();
+    while it.peek().is_some() {
+        let mut wave: Vec<(u64, gen_::ReRole, Arc<Vec<Req>>)> = vec![];
+        while wave.len() < 48 {
+            let Some((seq, role, reqs)) = it.next() else { break };
+            wave.push((seq, role, Arc::new(reqs)));
+        }
+        wave.sort_by_key(|w| w.1 == gen_::ReRole::Reentrant);
+        let hs: Vec<_> = wave.iter().map(|(seq, _, reqs)| tokio::spawn(run_sequence(group.clone(), reqs.clone(), rng.fork(*seq)))).collect();
+        for ((seq, role, reqs), h) in wave.into_iter().zip(hs) {
+            let outs = match h.await {
+                Ok(o) => o,
+                Err(e) => {
+                    rep.inconclusive(format!("re-entrant handler pipeline {seq} failed: {e}"));
+                    continue;
+                }
+            };
+            executed += 1;
+            rep.count("reent.pipelines_executed", 1);
+            rep.count(if role == gen_::ReRole::Reentrant { "reent.pipelines_with_reentrant_calls" } else { "reent.bystander_pipelines" }, 1);
+            for r in reqs.iter() {
+                if let Some(t) = r.target.filter(|t| srv::REENT_FN_T.contains(t) || matches!(t, T::RrConst | T::RrW)) {
+                    rep.count(&format!("reent.requests_per_path.{}", t.path()), 1);
+                    if r.notify == 1 {
+                        rep.count("reent.notifies_per_path", 1);
+                    }
+                }
+            }
+            let before = (rep.get_count("requests_with_exactly_one_response"), rep.get_count("handler_results_matched"));
+            let cx = SeqCtx { seed: args.seed, seq, reqs: &reqs, stalled: hb.max_gap_ms() > 1000, seen, ser: None, progress: true };
+            let singles = judge_sequence(rep, &cx, group, &outs, executed == 1);
+            rep.count("reent.requests_with_exactly_one_response", rep.get_count("requests_with_exactly_one_response") - before.0);
+            rep.count("reent.handler_results_matched", rep.get_count("handler_results_matched") - before.1);
+            for (s, per) in group.iter().zip(singles.iter()) {
+                let answered = reqs.iter().zip(per.iter()).filter(|(r, f)| f.is_some() && r.target.map(|t| srv::REENT_FN_T.contains(&t)).unwrap_or(false)).count() as u64;
+                rep.count(&format!("reent.reentrant_calls_answered.{}", s.name()), answered);
+                rep.count("reent.reentrant_calls_answered", answered);
+            }
+        }
+        if rep.get_count("requests_never_answered_within_progress_window") > 0 && it.peek().is_some() {
+            // serving threads are gone for good: further waves could only fail to connect
+            rep.count("reent.stopped_after_requests_were_never_answered", 1);
+            break;
+        }
+    }
+    rep.set("reent.phase_wall_ms", json!((rep.elapsed() - t0).as_millis() as u64));
+    if rep.get_count("reent.stopped_after_requests_were_never_answered") > 0 {
+        return;
+    }
+    if executed == 0 {
+        rep.inconclusive("re-entrant handler class: no pipeline executed");
+    } else if rep.get_count("reent.reentrant_calls_answered") == 0 && rep.violations.is_empty() {
+        rep.inconclusive("re-entrant handler class: no re-entrant call was observed to be answered");
     }
 }
 
@@ -847,8 +970,18 @@ fn run_inner(args: &Args, rep: &mut Report) {
             Arc::new(vec![])
         }
     };
+    // one server per dispatch path for the re-entrant handlers, on a runtime of their own
+    let re_rt: [tokio::runtime::Runtime; 3] = std::array::from_fn(|_| tokio::runtime::Builder::new_multi_thread().worker_threads(3).thread_name("c03-re-srv").enable_all().build().unwrap());
+    let re_group: Arc<Vec<Srv>> = match re::start(&re_rt) {
+        Ok(s) => Arc::new(s),
+        Err(e) => {
+            rep.inconclusive(format!("could not start the servers of the re-entrant handler class: {e}"));
+            Arc::new(vec![])
+        }
+    };
     let mut names: Vec<String> = servers.iter().map(|s| s.name()).collect();
     names.extend(rt_servers.iter().map(|s| s.name()));
+    names.extend(re_group.iter().map(|s| s.name()));
     names.extend(bp_group.iter().filter(|s| s.tag.is_some()).map(|s| s.name()));
     rep.set("servers", json!(names));
     let n = args.budget(2_500, 36_000);
@@ -864,7 +997,11 @@ fn run_inner(args: &Args, rep: &mut Report) {
         if !rt_servers.is_empty() {
             let n_rt = args.budget(420, 6_000);
             let rt_deadline = Duration::from_secs(if args.thorough() { 90 } else { 9 });
+            // paced traffic (whole frames spaced inside the timeout, long notify-only stretches): the connections mostly
+            // sleep, so they run next to the cut-frame class and are judged after it
+            let paced = rt::spawn_paced(args, &rt_servers);
             rt::run(rep, args, &rt_servers, &hb, n_rt, rt_deadline).await;
+            rt::judge_paced(rep, args, paced, &hb).await;
         }
         let t_rt = rep.elapsed();
         rep.set("rt.phase_wall_ms", json!(t_rt.as_millis() as u64));
@@ -899,12 +1036,17 @@ fn run_inner(args: &Args, rep: &mut Report) {
             };
             executed += 1;
             let stalled = hb.max_gap_ms() > 1000;
-            let cx = SeqCtx { seed, seq, reqs: &reqs, stalled, seen: &seen, ser: None };
+            let cx = SeqCtx { seed, seq, reqs: &reqs, stalled, seen: &seen, ser: None, progress: false };
             judge_sequence(rep, &cx, &servers, &outs, seq < 3);
         }
         // ---- class 4: WebSocket servers whose outbound path backs up (own servers + the two plain TCP servers)
         if !bp_group.is_empty() {
             bp_phase(rep, args, &bp_group, &hb, &seen, &mut gst, Duration::from_secs(if args.thorough() { 150 } else { 14 })).await;
+        }
+        // ---- class 5: handlers that re-enter the state they are served from (own servers; last, because a handler that
+        // never returns takes its serving thread with it)
+        if !re_group.is_empty() {
+            reent_phase(rep, args, &re_group, &hb, &seen, &mut gst).await;
         }
         // late or unattributable invocations: anything still in the log was produced after its request
         // had been judged (a second dispatch arriving late) or carries a token nobody sent
@@ -912,7 +1054,7 @@ fn run_inner(args: &Args, rep: &mut Report) {
     });
     let leftovers = srv::ev_drain();
     for ((sid, kind, key), (cnt, route)) in leftovers.iter().take(5) {
-        let name = servers.iter().find(|s| s.sid == *sid).map(|s| s.name()).or_else(|| rt_servers.iter().find(|s| s.sid == *sid).map(|s| s.name())).or_else(|| bp_group.iter().find(|s| s.sid == *sid).map(|s| s.name())).unwrap_or_default();
+        let name = servers.iter().find(|s| s.sid == *sid).map(|s| s.name()).or_else(|| rt_servers.iter().find(|s| s.sid == *sid).map(|s| s.name())).or_else(|| bp_group.iter().find(|s| s.sid == *sid).map(|s| s.name())).or_else(|| re_group.iter().find(|s| s.sid == *sid).map(|s| s.name())).unwrap_or_default();
         rep.violation(
             format!("C03:late-or-unattributable-invocation:{name}:{}", if *kind == EV_H { "handler" } else { "middleware" }),
             format!("{name}: {cnt} invocation record(s) with key {key} (route id {route}) after every request had been judged: a handler ran again late, or for a token no request carried (sequence {} request {} if a token)", key / 256, (key % 256).wrapping_sub(1)),
@@ -937,5 +1079,8 @@ fn run_inner(args: &Args, rep: &mut Report) {
     let _ = T::Json;
     let _ = Tr::Tcp;
     srv_rt.shutdown_background();
+    for rt in re_rt {
+        rt.shutdown_background();
+    }
     cli_rt.shutdown_background();
 }
